@@ -6,6 +6,7 @@
 package main
 
 import (
+	"encoding/json"
 	"fmt"
 	"go/ast"
 	"go/parser"
@@ -13,6 +14,8 @@ import (
 	"math/big"
 	"os"
 	"path/filepath"
+	"reflect"
+	"runtime"
 	"sort"
 	"strconv"
 	"strings"
@@ -65,8 +68,19 @@ func loadPkg(dir string) *pkgInfo {
 	return p
 }
 
+// genFailure is what die raises inside a generator: the generators are independent (one output file each), so a
+// source shape one of them no longer recognises breaks the tie only for the properties whose theorems depend on
+// that file; main records the failure per output file in GENSTATUS.json and still exits 2.
+type genFailure string
+
+var inGenerator bool
+
 func die(f string, a ...any) {
-	fmt.Fprintf(os.Stderr, "gen: "+f+"\n", a...)
+	msg := fmt.Sprintf(f, a...)
+	fmt.Fprintf(os.Stderr, "gen: %s\n", msg)
+	if inGenerator {
+		panic(genFailure(msg))
+	}
 	os.Exit(2)
 }
 
@@ -299,10 +313,49 @@ func main() {
 	if len(os.Args) > 2 {
 		outDir = os.Args[2]
 	}
-	genConsts()
-	for _, g := range extraGens {
+	status := map[string]string{}
+	failed := false
+	runOne := func(g func()) {
+		name := runtime.FuncForPC(reflect.ValueOf(g).Pointer()).Name()
+		name = name[strings.LastIndex(name, ".")+1:]
+		file, ok := genOutput[name]
+		if !ok {
+			fmt.Fprintf(os.Stderr, "gen: generator %s has no entry in genOutput\n", name)
+			os.Exit(2)
+		}
+		defer func() {
+			inGenerator = false
+			if r := recover(); r != nil {
+				gf, ok := r.(genFailure)
+				if !ok {
+					panic(r)
+				}
+				status[file] = string(gf)
+				failed = true
+			}
+		}()
+		inGenerator = true
+		status[file] = ""
 		g()
 	}
+	runOne(genConsts)
+	for _, g := range extraGens {
+		runOne(g)
+	}
+	js, _ := json.MarshalIndent(status, "", " ")
+	os.MkdirAll(outDir, 0o755)
+	os.WriteFile(filepath.Join(outDir, "GENSTATUS.json"), js, 0o644)
+	if failed {
+		os.Exit(2)
+	}
+}
+
+// genOutput names the one file each generator writes (checked: a generator missing here aborts the run).
+var genOutput = map[string]string{
+	"genConsts": "Consts.v", "genAccessSites": "AccessSites.v", "genHandleCodec": "HandleCodec.v",
+	"genHashmapConsts": "HashmapConsts.v", "genLocksConsts": "LocksConsts.v", "genMaintenance": "MaintConsts.v",
+	"genRbac": "RbacConsts.v", "genSearchTables": "SearchTables.v", "genStoreInfo": "StoreInfoFields.v",
+	"genTimeoutConsts": "TimeoutConsts.v", "genVectorConsts": "VectorConsts.v",
 }
 
 var extraGens []func()
